@@ -20,7 +20,7 @@ ASSUMPTIONS = [
     "the global switch constants.always_return_list is restored after every execution",
 ]
 
-VALUES = [[], ["a"], ["ab"], ["a", "b"], ["é"], [" ", "%"], "x", ["U v", "w;=,"]]
+VALUES = [[], ["a"], ["ab"], ["a", "b"], ["é"], [" ", "%"], "x", ["U v", "w;=,"], ("t1", "t2"), ("only",)]
 SETTERS = ("feature_setitem", "attributes_setitem", "update", "setdefault")
 LINE = "c1\ts\tgene\t5\t9\t.\t+\t.\tID=abc;Name=n1,n2;tag=t"
 
@@ -80,7 +80,7 @@ def body_set(ch, ctx):
         else:
             f.attributes.setdefault(key, val)
         stored = f.attributes._d if isinstance(f.attributes, Attributes) else f.attributes
-        want = [v] if isinstance(v, str) else list(v)
+        want = [v] if isinstance(v, str) else list(v)           # a tuple is a sequence of strings as well
         if setter == "setdefault" and key == "Name":
             want = ["n1", "n2"]
         got = stored.get(key)
@@ -90,6 +90,8 @@ def body_set(ch, ctx):
         view = f.attributes[key]
         if switch or len(want) != 1:
             ok = list(view) == want and not isinstance(view, str)
+        elif isinstance(v, tuple):
+            ok = view == want[0] or list(view) == want      # the switch is about single-item LISTS; a 1-tuple may stay as it is
         else:
             ok = view == want[0]
         ctx.check(ok, "view-differs", sig, key=key, value=v, view=repr(view))
@@ -172,11 +174,17 @@ def body_merge(ch, ctx):
     j = ch.index("second", n * n)
     b = {k: list(v) for k, v in (("k1", MVALS[j // n]), ("k3", MVALS[j % n])) if v is not None}
     numeric = ch.flag("numeric_sort")
-    container = ch.choose("container", ("dict", "Attributes"))
+    container = ch.choose("container", ("dict", "Attributes", "dict_with_scalars"))
     switch = ch.choose("always_return_list", (True, False))
-    A = Attributes(a) if container == "Attributes" else copy.deepcopy(a)
-    B = Attributes(b) if container == "Attributes" else copy.deepcopy(b)
-    A0, B0 = copy.deepcopy(G.as_plain(A)), copy.deepcopy(G.as_plain(B))
+    if container == "dict_with_scalars":
+        # hand-written dictionaries: single values given as bare strings
+        A = {k: (v[0] if len(v) == 1 else list(v)) for k, v in a.items()}
+        B = {k: (v[0] if len(v) == 1 else list(v)) for k, v in b.items()}
+        A0, B0 = copy.deepcopy(A), copy.deepcopy(B)
+    else:
+        A = Attributes(a) if container == "Attributes" else copy.deepcopy(a)
+        B = Attributes(b) if container == "Attributes" else copy.deepcopy(b)
+        A0, B0 = copy.deepcopy(G.as_plain(A)), copy.deepcopy(G.as_plain(B))
     ctx.sample(lambda: dict(a=a, b=b, numeric_sort=numeric, container=container, always_return_list=switch))
     ctx.nontrivial("k1" in a and "k1" in b)
     sig = dict(numeric_sort=numeric, container=container, switch=switch)
@@ -190,8 +198,11 @@ def body_merge(ch, ctx):
     exp = ref_merge(a, b, numeric)
     ctx.outcome((numeric, container, switch, len(exp)))
     ctx.check(got == exp, "merge_attributes-differs", sig, a=a, b=b, got=got, expected=exp)
-    ctx.check(G.as_plain(A) == A0 and G.as_plain(B) == B0, "merge_attributes-modified-argument", sig, a=a, b=b,
-              a_after=dict(G.as_plain(A)), b_after=dict(G.as_plain(B)))
+    if container == "dict_with_scalars":
+        ctx.check(A == A0 and B == B0, "merge_attributes-modified-argument", sig, a=A0, b=B0, a_after=A, b_after=B)
+    else:
+        ctx.check(G.as_plain(A) == A0 and G.as_plain(B) == B0, "merge_attributes-modified-argument", sig, a=a, b=b,
+                  a_after=dict(G.as_plain(A)), b_after=dict(G.as_plain(B)))
 
 
 def eq_features():
